@@ -143,9 +143,52 @@ Proof.
   induction R as [|p p' R IH Hs]; [apply pool_init_inv; auto | eapply pool_step_inv; eauto].
 Qed.
 
-(* the event sequences of pack / unpack in net/packet/packet.go obey the discipline *)
+(* ------------------------------------------------------------------ tie to net/packet/packet.go *)
+(* the event sequences of EVERY path of every sync.Pool user of net/packet, as read off the source by hand;
+   tools/gotrans/pool.go regenerates them on every run and they must be these *)
+Definition expected_pack_plain : list (list pev) :=
+  (* Get; (defer Put); Reset; Length, ID, Data written to the buffer; w.Write(buffer.Bytes()); Put *)
+  [[EGet 0; EUse 0; EUse 0; EUse 0; EUse 0; EUse 0; EPut 0]].
+Definition expected_compress : list (list pev) :=
+  (* Get zw; (defer Put); Reset(w); id; data fails -> Put | Close -> Put   (w is not pooled here) *)
+  [[EGet 0; EUse 0; EUse 0; EUse 0; EPut 0];
+   [EGet 0; EUse 0; EUse 0; EUse 0; EUse 0; EPut 0]].
+Definition expected_pack_compr : list (list pev) :=
+  (* compressed branch, compressPacket inlined (slot 1 = zlib writer working on slot 0), then `return err` *)
+  [[EGet 0; EUse 0; EUse 0; EUse 0; EGet 1; EUse2 1 0; EUse2 1 0; EUse2 1 0; EPut 1; EPut 0];
+   [EGet 0; EUse 0; EUse 0; EUse 0; EGet 1; EUse2 1 0; EUse2 1 0; EUse2 1 0; EUse2 1 0; EPut 1; EPut 0];
+   (* below the threshold: Reset; 4 writes; w.Write(buff.Bytes()) *)
+   [EGet 0; EUse 0; EUse 0; EUse 0; EUse 0; EUse 0; EUse 0; EPut 0];
+   (* compressed branch going on: Len; Next; WriteToBytes(Bytes()[:n]); w.Write(buff.Bytes()) *)
+   [EGet 0; EUse 0; EUse 0; EUse 0; EGet 1; EUse2 1 0; EUse2 1 0; EUse2 1 0; EPut 1; EUse 0; EUse 0; EUse 0; EUse 0; EPut 0];
+   [EGet 0; EUse 0; EUse 0; EUse 0; EGet 1; EUse2 1 0; EUse2 1 0; EUse2 1 0; EUse2 1 0; EPut 1; EUse 0; EUse 0; EUse 0; EUse 0; EPut 0]].
+Definition expected_unpack_compr : list (list pev) :=
+  (* error before Get | CopyN fails | DataLength fails / below threshold / too large | zlib header or id (plain) fails |
+     plain data | id (compressed) fails / smaller than id (+ deferred zr.Close) | compressed data (+ zr.Close) |
+     p.Data is filled by io.ReadFull: a COPY out of the pooled buffer on every path *)
+  [[];
+   [EGet 0; EUse 0; EUse 0; EPut 0];
+   [EGet 0; EUse 0; EUse 0; EUse 0; EUse 0; EPut 0];
+   [EGet 0; EUse 0; EUse 0; EUse 0; EUse 0; EUse 0; EPut 0];
+   [EGet 0; EUse 0; EUse 0; EUse 0; EUse 0; EUse 0; EUse 0; EUse 0; EUse 0; EPut 0];
+   [EGet 0; EUse 0; EUse 0; EUse 0; EUse 0; EUse 0; EUse 0; EUse 0; EUse 0; EUse 0; EPut 0];
+   [EGet 0; EUse 0; EUse 0; EUse 0; EUse 0; EUse 0; EUse 0; EPut 0]].
+Definition expected_pool_users : list (list (list pev)) :=
+  [expected_pack_plain; expected_pack_compr; expected_compress; expected_unpack_compr].
+
+Lemma pool_pack_plain_ok : pool_packWithoutCompression = expected_pack_plain. Proof. reflexivity. Qed.
+Lemma pool_pack_compr_ok : pool_packWithCompression = expected_pack_compr. Proof. reflexivity. Qed.
+Lemma pool_compress_ok : pool_compressPacket = expected_compress. Proof. reflexivity. Qed.
+Lemma pool_unpack_compr_ok : pool_unpackWithCompression = expected_unpack_compr. Proof. reflexivity. Qed.
+(* ... and there is no other user of a package-level sync.Pool in net/packet *)
+Lemma pool_users_ok : pool_users = expected_pool_users. Proof. reflexivity. Qed.
+
+Lemma forallb_Forall {A} (f : A -> bool) l : forallb f l = true -> Forall (fun x => f x = true) l.
+Proof. intros H. apply Forall_forall. apply forallb_forall. exact H. Qed.
+Lemma expected_disciplined : Forall (fun c => disciplined [] c = true) (concat expected_pool_users).
+Proof. apply forallb_Forall. vm_compute. reflexivity. Qed.
 Lemma packet_seqs_disciplined : Forall (fun c => disciplined [] c = true) packet_seqs.
-Proof. repeat constructor. Qed.
+Proof. unfold packet_seqs. rewrite pool_users_ok. exact expected_disciplined. Qed.
 
 (* a holder is never robbed: what a thread holds, no other thread holds (the pool contract is respected by the machine) *)
 Lemma pool_progress_use i t p sl k : PInv p -> nth_error (pth p) i = Some t -> now t = EUse sl :: k ->
